@@ -563,6 +563,10 @@ func (attr *EapAkaPrimeAttr) setAttr(attrType EapAkaPrimeAttrType, value []byte)
 		// +-+-+-+-+-+-+-+-+-+-+-+-+-+-+-+-+-+-+-+-+-+-+-+-+-+-+-+-+-+-+-+-+
 		attr.reserved = 0
 		valLen := len(value)
+		// no checkcode, SHA-1 checkcode (RFC 4187) or SHA-256 checkcode (RFC 5448)
+		if valLen != 0 && valLen != 20 && valLen != 32 {
+			return errors.Errorf("%s needs 0, 20 or 32 bytes, but got %d bytes", attrType, valLen)
+		}
 		attr.length = uint8((EapAkaAttrTypeLen + EapAkaAttrTypeLen + EapAkaAttrReservedLen + valLen) / 4)
 		attr.value = make([]byte, valLen)
 		copy(attr.value, value)
